@@ -20,6 +20,7 @@ RULE = (
     "rows are re-derived from it. Non-trivial = a chromosome with >= 2 genes and an intergenic stretch, or a "
     "non-default index; distinct = distinct case JSON."
 )
+CLI_SHARE = 4  # one case in CLI_SHARE also goes through the command line (vk/cli.py)
 QUICK = {"examples": 2400, "shards": 16, "budget_s": 300}
 THOROUGH = {"examples": 24000, "shards": 16, "budget_s": 2400}
 ASSUMPTIONS = [
